@@ -256,6 +256,12 @@ macro_rules! angle_systems {
                         same_slice(ctx, &key(concat!($label, "/sum")), &[by_val.0], &[T::zero() + a + b + s]);
                         same_slice(ctx, &key(concat!($label, "/sum/refs")), &[by_ref.0], &[T::zero() + a + b + s]);
                         same_slice(ctx, &key(concat!($label, "/zero")), &[A::<T>::zero().0], &[T::zero()]);
+                        let none: [A<T>; 0] = [];
+                        let (e_val, e_ref): (A<T>, A<T>) = (none.iter().copied().sum(), none.iter().sum());
+                        same_slice(ctx, &key(concat!($label, "/sum/empty")), &[e_val.0, e_ref.0], &[T::zero(), T::zero()]);
+                        let one = [x];
+                        let (o_val, o_ref): (A<T>, A<T>) = (one.iter().copied().sum(), one.iter().sum());
+                        same_slice(ctx, &key(concat!($label, "/sum/singleton")), &[o_val.0, o_ref.0], &[T::zero() + a, T::zero() + a]);
                     },
                 );
             }
@@ -305,11 +311,27 @@ macro_rules! angle_systems {
                         xs.push(s * v / to_rad);
                     }
                 }
+                // small angles on a ladder (a small-angle shortcut), neighbourhoods of the special values, many turns
+                // (argument reduction by a rounded full turn): the functions are those of the exact radian measure
+                for k in 1..=7 {
+                    xs.push(3.0 * 10f64.powi(-k) / to_rad);
+                    xs.push(-(10f64.powi(-k)) / to_rad);
+                }
+                for c in [PI / 2.0, PI, 2.0 * PI] {
+                    for d in [1e-4, -1e-4, 1e-2] {
+                        xs.push((c + d) / to_rad);
+                        xs.push((-c + d) / to_rad);
+                    }
+                }
+                xs.extend([1e4 / to_rad, -1e5 / to_rad, 123456.7 / to_rad, 1e6 / to_rad]);
+                if !T::EXACT && T::NAME == "D" {
+                    xs.extend([-1e7 / to_rad, 1e9 / to_rad, 1e12 / to_rad]);
+                }
                 let xs: Vec<T> = xs.into_iter().map(|x| num_traits::cast::<f64, T>(x).unwrap()).collect();
                 rep.cases(
                     concat!("trig/", $label),
                     T::NAME,
-                    &format!("{} angles: grid of step 0.37*40/{} rad up to +-14.8 rad, special values, 1e3 rad", xs.len(), steps),
+                    &format!("{} angles: grid of step 0.37*40/{} rad up to +-14.8 rad, special values and their neighbourhoods, a ladder 1e-7..0.3 rad, 1e3..1e6 rad (f64: ..1e12)", xs.len(), steps),
                     xs.len(),
                     Guard::states(80).distinct(80),
                     |i, ctx| {
@@ -323,13 +345,13 @@ macro_rules! angle_systems {
                         let cmp = |ctx: &mut Ctx, name: &str, got: T, m: Sh| {
                             ctx.t();
                             let tol = K_TOL * T::U * (m.e + m.v.abs());
-                            if !(got.f().is_finite() && m.v.is_finite()) {
+                            if !m.v.is_finite() || !tol.is_finite() {
                                 return; // poles: not judged
                             }
                             if tol > 1e-3 * (1.0 + m.v.abs()) {
                                 return; // ill-conditioned near a pole
                             }
-                            if (got.f() - m.v).abs() > tol {
+                            if !((got.f() - m.v).abs() <= tol) {
                                 ctx.fail(&key(&format!("{}/{}", $label, name)), || format!("{}({:?}) = {:?}, real function gives {:?} (tolerance {:e})", name, x, got, m.v, tol));
                             }
                         };
@@ -364,7 +386,10 @@ macro_rules! angle_systems {
                             let m = from_rad(m);
                             let tol = K_TOL * T::U * (m.e + m.v.abs()) + 1e-300;
                             if !m.e.is_finite() {
-                                // derivative unbounded at +-1: judge the range only
+                                // derivative unbounded at +-1, but the argument is exactly +-1: the value is a quarter / half turn or 0
+                                if !((got.f() - m.v).abs() <= 8.0 * T::U * half_turn_f) {
+                                    ctx.fail(&key(&format!("{}/{}/at-the-end-of-the-domain", $label, name)), || format!("{}({:?}) = {:?}, principal value {:?}", name, x, got, m.v));
+                                }
                             } else if (got.f() - m.v).abs() > tol {
                                 ctx.fail(&key(&format!("{}/{}", $label, name)), || format!("{}({:?}) = {:?}, principal value {:?}", name, x, got, m.v));
                             }
